@@ -223,7 +223,7 @@ func TestC35(t *testing.T) {
 	r := vkit.Start(t, "C35", "exploration")
 	defer r.Finish()
 	r.Rule("a case = precision p∈{4..18, mostly 16} + 2..5 leaf multisets (index ranges of a per-case key universe, overlapping/disjoint/identical, sizes around m/100, ≈m/3 (sparse→dense) and up to 6m, with re-added keys); sketches are built with the real Add, merged in three association/orders, compared register-by-register (dense MarshalBinary), counted against the exact union size, and marshalled/unmarshalled; non-trivial = ≥2 non-empty leaves; distinct = hash of (p, leaves)")
-	n := r.N(300, 5000)
+	n := r.N(300, 2500)
 	maxN := 200000
 	if !r.Quick() {
 		maxN = 600000
